@@ -1,0 +1,28 @@
+// Copyright 2026 CUE Authors
+//
+// Licensed under the Apache License, Version 2.0 (the "License");
+// you may not use this file except in compliance with the License.
+// You may obtain a copy of the License at
+//
+//     http://www.apache.org/licenses/LICENSE-2.0
+//
+// Unless required by applicable law or agreed to in writing, software
+// distributed under the License is distributed on an "AS IS" BASIS,
+// WITHOUT WARRANTIES OR CONDITIONS OF ANY KIND, either express or implied.
+// See the License for the specific language governing permissions and
+// limitations under the License.
+
+// Package simhook provides the seams a deterministic simulator needs in
+// order to decide goroutine interleavings, lock hand-over, random picks and
+// crash points of code in this module.
+//
+// Without the build tag "verif" every function in this package is an empty
+// inlinable function, so call sites cost nothing and change nothing.
+// With the tag, every function forwards to the [Simulator] installed with
+// [Attach], and behaves exactly like the untagged version when none is
+// installed.
+package simhook
+
+// Token links a Spawn call in a parent goroutine to the Started call
+// that is the first statement of the goroutine it starts.
+type Token uint64
